@@ -208,6 +208,26 @@ def check_metamorphic(short, inum, t, data):
                 out.append(("C12:devicetype-argument-changes-24-bit-decode", "%s: with devicetype=%d decoded %r, with 0 %r"
                             % (where, dt, describe(w), describe(via_map))))
                 break
+        # the ambiguous event is parked while other traffic is decoded (other unresolved events, events of
+        # unimplemented types): it must still be the event it was when it is retried
+        v_o1 = (((short + 5) % 64) << 17) | 0x8000 | (((inum + 3) % 32) << 10) | ((data + 77) % 1024)
+        v_o2 = (((short + 9) % 64) << 17) | (7 << 10) | ((data + 301) % 1024)
+        parked = [command.from_frame(frame.ForwardFrame(24, v_o1)), command.from_frame(frame.ForwardFrame(24, v_o2))]
+        if amb.frame.as_integer != v_di or describe(amb)["data"] != data:
+            out.append(("C12:parked-event-changed-by-later-decode", "%s: after decoding %#08x and %#08x the parked ambiguous "
+                        "event holds frame %#08x / %r" % (where, v_o1, v_o2, amb.frame.as_integer, describe(amb))))
+        if parked[0].frame.as_integer != v_o1 or parked[1].frame.as_integer != v_o2:
+            out.append(("C12:parked-event-changed-by-later-decode", "%s: events decoded from %#08x / %#08x hold %#08x / %#08x"
+                        % (where, v_o1, v_o2, parked[0].frame.as_integer, parked[1].frame.as_integer)))
+        r = amb.retry_decode(m)
+        if r is None or describe(r) != describe(via_map) or r.frame.as_integer != v_di:
+            out.append(("C12:retry-differs", "%s: retry gave %r, direct decode %r" % (where, r and describe(r), describe(via_map))))
+        r2 = amb.retry_decode(other)
+        if r2 is not None:
+            out.append(("C12:retry-without-entry", "%s: retry with an entry-less map gave %r" % (where, r2)))
+        r3 = amb.retry_decode(DeviceInstanceTypeMapper())
+        if r3 is not None:
+            out.append(("C12:retry-without-entry", "%s: retry with an empty map gave %r" % (where, r3)))
         # the receiver of an event edits it (renumbers the source when merging two buses): later decodes are unaffected
         ref_desc = describe(via_map)
         try:
@@ -220,15 +240,6 @@ def check_metamorphic(short, inum, t, data):
             out.append(("C12:decode-result-shared-with-caller", "%s: after the caller edited a decoded event, the same frame decodes "
                         "as %r (frame %#x), expected %r" % (where, describe(again), again.frame.as_integer, ref_desc)))
         via_map = again
-        r = amb.retry_decode(m)
-        if r is None or describe(r) != describe(via_map) or r.frame.as_integer != v_di:
-            out.append(("C12:retry-differs", "%s: retry gave %r, direct decode %r" % (where, r and describe(r), describe(via_map))))
-        r2 = amb.retry_decode(other)
-        if r2 is not None:
-            out.append(("C12:retry-without-entry", "%s: retry with an entry-less map gave %r" % (where, r2)))
-        r3 = amb.retry_decode(DeviceInstanceTypeMapper())
-        if r3 is not None:
-            out.append(("C12:retry-without-entry", "%s: retry with an empty map gave %r" % (where, r3)))
     except Exception as e:  # noqa
         if library_frame(e.__traceback__) is None:
             raise
